@@ -16,7 +16,7 @@ QUICK = [((2, 2, 4), False, 1.0, THEOREMS), ((2, 2, 4), True, 1.0, THEOREMS), ((
 THOROUGH = [((2, 2, 4), False, 1.0, THEOREMS), ((2, 2, 4), True, 1.0, THEOREMS), ((2, 3, 6), False, 1.0, THEOREMS),
             ((3, 2, 4), False, 1.0, THEOREMS), ((3, 2, 2), True, 1.0, THEOREMS), ((2, 3, 3), True, 1.0, THEOREMS),
             ((4, 2, 2), True, 1.0, THEOREMS), ((3, 3, 3), True, 1.0, THEOREMS), ((3, 3, 6), False, 0.25, THEOREMS),
-            ((2, 4, 4), True, 1.0, ("Emit", "ZeroWhenIndependent", "MILogK")), ((4, 4, 4), True, 0.01, ("Emit", "ZeroWhenIndependent", "MILogK")),
+            ((2, 4, 4), True, 1.0, ("Emit", "ZeroWhenIndependent", "MILogK")), ((3, 4, 4), True, 0.1, ("Emit", "ZeroWhenIndependent", "MILogK")), ((4, 4, 2), True, 0.1, ("Emit", "ZeroWhenIndependent", "MILogK")),
             ((6, 3, 1), True, 1.0, ("Emit", "ZeroWhenIndependent", "MILogK")), ((6, 2, 1), True, 1.0, ("Emit", "MILogK"))]
 ALL = None
 
@@ -164,7 +164,7 @@ def run(tier):
                           {"shape": shape, "trace": r.trace[:3000]}, tags=("spec",))
         rep.add_tlc("Gemini", r, note=f"shape={shape} closed={closed} chunks={nch} invariants={','.join(invs)}")
         for case in r.prints:
-            check_case(rep, case, closed, stats, max_perms=6 if tier == "quick" else 24)
+            check_case(rep, case, closed, stats, max_perms=6 if tier == "quick" else 10)
         if r.prints:
             c = r.prints[len(r.prints) // 2]
             rep.sample({"shape": list(shape), "closed": closed, "a": c["a"], "x": c["x"]})
